@@ -39,7 +39,8 @@ class FieldScalarModel(FieldModel):
         self.mask = (1 << width)-1
         self.is_signed = is_signed
         self.is_declared_rand = is_rand
-        self.is_used_rand = is_rand
+        # Not part of any call yet: set_used_rand decides per call
+        self.is_used_rand = False
         self.rand_mode = is_rand
         self.rand_if = rand_if
         self.var = None
